@@ -50,9 +50,16 @@ def pstep (s : PSt) (toks : List String) : PSt × String :=
     let n := repoNo name
     if s.names.contains n then (s, "bad-op") else
     if kind != "healthy" && kind != "corrupt" && kind != "empty" && kind != "removed" then (s, "error unknown kind " ++ kind) else
-    ({ s with names := s.names ++ [n], kinds := s.kinds ++ [(n, kind)],
-              mem := s.mem ++ [(n, { due := due == "1", repo := mkMem kind })],
-              dir := s.dir ++ [(n, { due := due == "1", repo := mkDir kind })] }, "ok")
+    -- `a<ms>`: an exact age; the harness runs every pass with a tick interval of 1000 ms and a grace period of one hour
+    let grace := if s.p.grace then 3600000 else 0
+    let dueFor (slack : Nat) : Option Bool :=
+      if due.startsWith "a" then ((due.drop 1).toString.toNat?).map (dueOf slack grace 1000) else some (due == "1")
+    match dueFor 0, dueFor 250 with
+    | some dm, some dd =>
+      ({ s with names := s.names ++ [n], kinds := s.kinds ++ [(n, kind)],
+                mem := s.mem ++ [(n, { due := dm, repo := mkMem kind })],
+                dir := s.dir ++ [(n, { due := dd, repo := mkDir kind })] }, "ok")
+    | _, _ => (s, "bad-op")
   | ["G", name] =>
     let n := repoNo name
     let kind := ((s.kinds.find? (·.1 = n)).map (·.2)).getD ""
